@@ -24,41 +24,42 @@ import (
 
 // flowParams describes one scenario instance.
 type flowParams struct {
-	Engine       string              `json:"engine"`
-	Sources      int                 `json:"sources"`
-	Records      int                 `json:"records"`
-	Batch        int                 `json:"batch"` // records per Read
-	Dests        int                 `json:"dests"`
-	AckMenu      []string            `json:"ack_menu"`
-	DLQMenu      []string            `json:"dlq_menu"`
-	Window       int                 `json:"dlq_window"`
-	Thresh       int                 `json:"dlq_threshold"`
-	Stop         string              `json:"stop"` // "", "stopwait", "stop+wait", "force"
-	Bundle       int                 `json:"persister_bundle"`
-	Faults       bool                `json:"store_faults"`
-	ReadMenu     []string            `json:"read_menu"`
-	Blocked      []string            `json:"blocked"` // connectors whose ack gate is never granted (unresponsive plugin)
-	Restart      bool                `json:"restart"` // start the pipeline again after the stop completed
-	Retries      int                 `json:"max_retries"`
-	Procs        []procParam         `json:"procs"`
-	PointOnly    []string            `json:"point_only"`     // preemptive part: sweep only points of these files
-	LateOpen     []string            `json:"late_open"`      // destinations whose Open gate sorts last (stays pending by default)
-	LateCommit   bool                `json:"late_commit"`    // store commits stay in flight until nothing else can run (exploration order)
-	ChunkAcks    bool                `json:"chunk_acks"`     // forced destination answers (Reject) arrive one response per record
-	AckScript    []string            `json:"ack_script"`     // forced answer of the k-th ack request of every destination (input script, not a choice)
-	IdleBatches  []int               `json:"idle_batches"`   // source batches whose first read waits until no timer is left (quiet period)
-	LatePut      bool                `json:"late_put"`       // non-transactional store writes (pipeline status) stay in flight until nothing else can run
-	SiteWide     bool                `json:"site_wide"`      // preemptive part: hold every goroutine reaching the armed site
-	LateAckRecv  bool                `json:"late_ack_recv"`  // source plugins are slow to receive acks (exploration order)
-	GateDestOpen bool                `json:"gate_dest_open"` // destination Open calls are pending events with answers {ok, err}
-	NoMatch      []int               `json:"no_match"`       // records that do not match the processors' condition (Cond: "match")
-	GateDLQOpen  bool                `json:"gate_dlq_open"`  // the DLQ connector's Open is a pending event (an unresponsive DLQ during start-up)
-	Reject       map[string][]string `json:"reject"`         // destination -> records/pieces it rejects (forced answers, C08)
-	Apply        []string            `json:"apply"`          // live applies: "<kind>[+stale][+noauth]", kind in proc, twoprocs, conn, addproc; "||" prefix = concurrent with the previous one
-	Reconf       []string            `json:"reconf"`         // live reconfigure requests for processor "pp": "A", "B" (concurrent), "cancelA"
-	ProcOpenMenu []string            `json:"proc_open_menu"`
-	Ctl          []string            `json:"ctl"`           // explicit control history (after "start"): stop, wait, stopwait, force, stopall, start; one at a time
-	SrcPositions string              `json:"src_positions"` // "" normal, "dup": record 1 repeats the position of record 0, "empty": record 1 has an empty position
+	Engine         string              `json:"engine"`
+	Sources        int                 `json:"sources"`
+	Records        int                 `json:"records"`
+	Batch          int                 `json:"batch"` // records per Read
+	Dests          int                 `json:"dests"`
+	AckMenu        []string            `json:"ack_menu"`
+	DLQMenu        []string            `json:"dlq_menu"`
+	Window         int                 `json:"dlq_window"`
+	Thresh         int                 `json:"dlq_threshold"`
+	Stop           string              `json:"stop"` // "", "stopwait", "stop+wait", "force"
+	Bundle         int                 `json:"persister_bundle"`
+	Faults         bool                `json:"store_faults"`
+	ReadMenu       []string            `json:"read_menu"`
+	Blocked        []string            `json:"blocked"` // connectors whose ack gate is never granted (unresponsive plugin)
+	Restart        bool                `json:"restart"` // start the pipeline again after the stop completed
+	Retries        int                 `json:"max_retries"`
+	Procs          []procParam         `json:"procs"`
+	PointOnly      []string            `json:"point_only"`       // preemptive part: sweep only points of these files
+	LateOpen       []string            `json:"late_open"`        // destinations whose Open gate sorts last (stays pending by default)
+	LateCommit     bool                `json:"late_commit"`      // store commits stay in flight until nothing else can run (exploration order)
+	CommitDelaysMs []int               `json:"commit_delays_ms"` // the k-th store commit takes this long (virtual ms): a slow but responding store
+	ChunkAcks      bool                `json:"chunk_acks"`       // forced destination answers (Reject) arrive one response per record
+	AckScript      []string            `json:"ack_script"`       // forced answer of the k-th ack request of every destination (input script, not a choice)
+	IdleBatches    []int               `json:"idle_batches"`     // source batches whose first read waits until no timer is left (quiet period)
+	LatePut        bool                `json:"late_put"`         // non-transactional store writes (pipeline status) stay in flight until nothing else can run
+	SiteWide       bool                `json:"site_wide"`        // preemptive part: hold every goroutine reaching the armed site
+	LateAckRecv    bool                `json:"late_ack_recv"`    // source plugins are slow to receive acks (exploration order)
+	GateDestOpen   bool                `json:"gate_dest_open"`   // destination Open calls are pending events with answers {ok, err}
+	NoMatch        []int               `json:"no_match"`         // records that do not match the processors' condition (Cond: "match")
+	GateDLQOpen    bool                `json:"gate_dlq_open"`    // the DLQ connector's Open is a pending event (an unresponsive DLQ during start-up)
+	Reject         map[string][]string `json:"reject"`           // destination -> records/pieces it rejects (forced answers, C08)
+	Apply          []string            `json:"apply"`            // live applies: "<kind>[+stale][+noauth]", kind in proc, twoprocs, conn, addproc; "||" prefix = concurrent with the previous one
+	Reconf         []string            `json:"reconf"`           // live reconfigure requests for processor "pp": "A", "B" (concurrent), "cancelA"
+	ProcOpenMenu   []string            `json:"proc_open_menu"`
+	Ctl            []string            `json:"ctl"`           // explicit control history (after "start"): stop, wait, stopwait, force, stopall, start; one at a time
+	SrcPositions   string              `json:"src_positions"` // "" normal, "dup": record 1 repeats the position of record 0, "empty": record 1 has an empty position
 }
 
 // procParam describes one scripted processor of the scenario.
@@ -98,6 +99,9 @@ func (p flowParams) name() string {
 	}
 	if p.LatePut {
 		n += "/lateput"
+	}
+	if len(p.CommitDelaysMs) > 0 {
+		n += fmt.Sprintf("/slowcommits=%v", p.CommitDelaysMs)
 	}
 	if p.ChunkAcks {
 		n += "/chunkacks"
@@ -256,7 +260,11 @@ func flowScenario(p flowParams) verifkit.Scenario {
 				}})
 			}
 			procs.Add(fakes.ProcScript{Name: "pnew", OpenMenu: p.ProcOpenMenu})
-			st, err := stack.New(x.W, plugins, nil, stack.Options{Engine: engineOf(p.Engine), ProcPlugins: procs, PersisterBundle: p.Bundle, LateCommits: p.LateCommit, LatePuts: p.LatePut, FaultCommits: p.Faults, FaultSets: p.Faults, Recovery: rec})
+			var delays []time.Duration
+			for _, ms := range p.CommitDelaysMs {
+				delays = append(delays, time.Duration(ms)*time.Millisecond)
+			}
+			st, err := stack.New(x.W, plugins, nil, stack.Options{CommitDelays: delays, Engine: engineOf(p.Engine), ProcPlugins: procs, PersisterBundle: p.Bundle, LateCommits: p.LateCommit, LatePuts: p.LatePut, FaultCommits: p.Faults, FaultSets: p.Faults, Recovery: rec})
 			if err != nil {
 				panic(err)
 			}
